@@ -42,7 +42,7 @@ ADDCAT = UDB + ":UnitDatabase.AddCategory"
 PROPS["C14"] = {
     "tasks": lambda tier: table_tasks("table_c14") + [V(UDB + ":UnitDatabase.AddUnit"), V(UDB + ":UnitDatabase.AddUnitBase"), V(UDB + ":UnitDatabase.GetValidUnits")] + VP(ADDCAT, 16),
     "level": "proof",
-    "level_text": "History half: AddUnit, AddUnitBase and AddCategory are verified, for an arbitrary well-formed registry and symbolic arguments, to (a) leave the registry exactly as it was when they reject the call, (b) write exactly the entry they register (post-state given as Store terms over the pre-state), and (c) preserve every clause of the registry invariant WF at generic keys - one quantity type per symbol with list/dictionary agreement and no duplicates (W1), identity conversions for the first-listed unit (W2), categories with an existing type, default and valid units of that type, ordered limits and a default value inside them (W3) - so WF holds after any sequence of accepted and rejected registrations by induction. AddCategory additionally accepts well-formed arguments, stores the given / inherited / derived fields, and the new entry satisfies W3. Table half: the three shipped fillers are executed from their real AST and the resulting registries are checked row by row for W1-W3 (W2 for all reals by z3). Known finding: AddUnit on a quantity type without units makes a non-identity unit first-listed until AddUnitBase is called.",
+    "level_text": "History half: AddUnit, AddUnitBase and AddCategory are verified, for an arbitrary well-formed registry and symbolic arguments, to (a) leave the registry exactly as it was when they reject the call, (b) write exactly the entry they register (post-state given as Store terms over the pre-state), and (c) preserve every clause of the registry invariant WF at generic keys - one quantity type per symbol with list/dictionary agreement and no duplicates (W1), identity conversions for the first-listed unit (W2), categories with an existing type, default and valid units of that type, ordered limits and a default value inside them (W3) - so WF holds after any sequence of accepted and rejected registrations by induction. AddCategory additionally accepts well-formed arguments, stores the given / inherited / derived fields, and the new entry satisfies W3. Table half: the three shipped fillers are executed from their real AST and the resulting registries are checked row by row for W1-W3 (W2 for all reals by z3). Known finding: AddUnit on a quantity type without units makes a non-identity unit first-listed until AddUnitBase is called. 'Every registered unit and category can be used to build a valid Scalar' rests on Quantity.CheckValue and Scalar.CheckValidity, re-verified here as callee clauses.",
     "level_note": "AddCategory with valid_units: lists of 0-2 symbolic names (thorough) / 1 (quick) - shape-bounded; inheriting valid_units from from_category (a loop over the source category's own list of unknown length) is handled by the generic-iteration rule with the invariant instances W3/F1 of its elements; precondition: new symbols are not legacy spellings (F1); 'every registered unit and category can be used to build a valid Scalar' follows from W1/W3 with Quantity.__init__'s contract (C05/C07) and is replayed natively by the registry_history probe, not proved as one obligation; floats are reals; induction over histories is the meta-step A9",
     "trusted": ["z3 5.1.0", "pyvc symbolic interpreter; registry dictionaries modelled as arrays (pyvc/registry.py)"],
 }
@@ -103,7 +103,7 @@ AOPS_KEY = AR + "._DoOperation#operators"
 PROPS["C10"] = {
     "tasks": lambda tier: VP(AOPS_KEY, 12) + [V(UDB + ":UnitDatabase._ConvertMatchedValue")],
     "level": "proof",
-    "level_text": "Array OP Array and Array OP number (OP in + - * / //) for list-, tuple- and numpy-backed values of symbolic, unbounded length: Array._DoOperation and _ValueGenerator are executed from their real AST, the per-element loop by a map rule (generic index, quantified reading of element-dependent raises), the database operations by their contracts (proved in C03/C04). Proved: the result is a new Array whose quantity is the one the Scalar operation yields, whose element j is F(a_j, b_j) for the same value function F the Scalar contract uses, whose container kind is tuple iff all iterated operands are tuples (ndarray if any operand is), independent of the operands' container kinds; empty operands give an empty result; operands of different lengths raise ValueError; different dimensions raise InvalidOperationError. Array.FromScalars and unit conversion of Arrays are not yet under contract.",
+    "level_text": "Array OP Array and Array OP number (OP in + - * / //) for list-, tuple- and numpy-backed values of symbolic, unbounded length: Array._DoOperation and _ValueGenerator are executed from their real AST, the per-element loop by a map rule (generic index, quantified reading of element-dependent raises), the database operations by their contracts (proved in C03/C04). Proved: the result is a new Array whose quantity is the one the Scalar operation yields, whose element j is F(a_j, b_j) for the same value function F the Scalar contract uses, whose container kind is tuple iff all iterated operands are tuples (ndarray if any operand is), independent of the operands' container kinds; empty operands give an empty result; operands of different lengths raise ValueError; different dimensions raise InvalidOperationError. Array.FromScalars and unit conversion of Arrays are not yet under contract. UnitDatabase._ConvertMatchedValue (the re-expression step of the operations) is verified for float, list, tuple and ndarray values: elementwise scaling by ratio**exponent in a new container of the same kind, the operand's container never written. Conversions: the clauses of UnitDatabase.Convert (list / tuple / ndarray values) and Array.GetAbstractValue are re-verified here as callee clauses. Numpy-backed Arrays of different lengths raise ValueError (repaired by 47d5416).",
     "level_note": "operand quantities: simple x simple (thorough adds derived shapes); numpy division excluded (zero elements give inf/nan, outside the real model); numpy elementwise arithmetic assumed (A5); floats are reals",
     "trusted": ARITH_TRUSTED + ["numpy: arithmetic operators act elementwise on ndarrays of equal length and raise ValueError otherwise (A5)", "callee contracts used: UnitDatabase.Sum/Subtract/Multiply/Divide/FloorDivide (verified against their bodies in C03/C04)"],
 }
@@ -117,7 +117,7 @@ PROPS["C05"] = {
     "tasks": lambda tier: [V(QM + ":Quantity._CreateDerived"), V(UDB + ":UnitDatabase.GetInfo"), V(UDB + ":UnitDatabase.Convert"), V(UDB + ":UnitDatabase.CheckCategoryUnit"), V(QM + ":Quantity.__init__"), *VP(QM + ":ObtainQuantity", 16), V(QM + ":Quantity.ConvertScalarValue"), V(SC + ".__lt__#ordering")]
     + VP(UDB + ":UnitDatabase.Sum", 5) + VP(UDB + ":UnitDatabase.Subtract", 5) + VP(OPS_KEY, 10) + VP(AOPS_KEY, 12),
     "level": "proof",
-    "level_text": "Exceptional postconditions, proved of the real bodies for arbitrary well-formed registries and symbolic arguments, in both directions (raises when it must, returns when it must not): GetInfo raises InvalidUnitError iff the unit does not resolve inside the (existing) quantity type and InvalidQuantityTypeError iff the type does not exist, with the explicit Unknown exemption; Convert, Quantity.ConvertScalarValue and Scalar.GetValue inherit; CheckCategoryUnit raises iff the unit is not valid for the category on the memo-hit and the memo-miss path; Quantity.__init__/ObtainQuantity raise for a unit outside the category's quantity type (after the legacy rewrite); adding/subtracting Scalars or Arrays of different dimensions raises InvalidOperationError with dimensionless operands exempt; ordering Scalars of different quantity types raises TypeError. On every path, raising or not, the registry is proved unchanged except for consistent memo/intern-table insertions, the operand value objects and the operand quantities are unchanged (frame obligations).",
+    "level_text": "Exceptional postconditions, proved of the real bodies for arbitrary well-formed registries and symbolic arguments, in both directions (raises when it must, returns when it must not): GetInfo raises InvalidUnitError iff the unit does not resolve inside the (existing) quantity type and InvalidQuantityTypeError iff the type does not exist, with the explicit Unknown exemption; Convert, Quantity.ConvertScalarValue and Scalar.GetValue inherit; CheckCategoryUnit raises iff the unit is not valid for the category on the memo-hit and the memo-miss path; Quantity.__init__/ObtainQuantity raise for a unit outside the category's quantity type (after the legacy rewrite); adding/subtracting Scalars or Arrays of different dimensions raises InvalidOperationError with dimensionless operands exempt; ordering Scalars of different quantity types raises TypeError. On every path, raising or not, the registry is proved unchanged except for consistent memo/intern-table insertions, the operand value objects and the operand quantities are unchanged (frame obligations). Quantity.CreateDerived (the validating construction of derived quantities) rejects, entry by entry, an unregistered category or a unit that is not a unit of the category's quantity type.",
     "level_note": "arithmetic shape-bounded as C03; registry invariants WF/CC assumed for inputs; FractionScalar ordering not yet under contract",
     "trusted": STD_TRUSTED,
 }
@@ -142,7 +142,7 @@ PROPS["C15"] = {
 PROPS["C12"] = {
     "tasks": lambda tier: [V(QM + ":Quantity.CheckValue"), V(QM + ":Quantity.ConvertScalarValue"), V(SC + ".CheckValidity"), V("barril.units._array:Array._DoValidateValues#flat"), V("barril.units._array:Array.CreateCopy#validity-memo")] + VP("barril.units._fraction_scalar:FractionScalar#like-a-scalar", 7) + VP(ADDCAT, 16) + table_tasks("table_c14"),
     "level": "proof",
-    "level_text": "Quantity.CheckValue is verified against the functional contract 'accepts exactly when the amount re-expressed in the category's default unit satisfies the limits': for a symbolic category (limits present/absent, inclusive/exclusive, symbolic reals), a symbolic unit of its type and an extended float (NaN, +inf, -inf flags) it returns iff both limits hold for y = conv(unit -> default unit)(value), otherwise raises QuantityValidationError carrying y, the violated limit (min before max) and the operator matching exclusivity, in symbols or words; NaN satisfies no limit; derived quantities are accepted. AddCategory is proved never to register a default unit outside the category's quantity type or a default value outside its own limits (W3 of the new entry, for all combinations of given / inherited / absent limits, default value and default unit), and the shipped tables satisfy the same row by row. Scalar.CheckValidity / IsValid and FractionScalar.CheckValidity are proved to be exactly CheckValue of the stored amount (derived quantities always valid). Array.CheckValidity / IsValid on flat lists, tuples and ndarrays of unbounded length whose elements are finite numbers or NaN: the real scan (skip leading NaNs, then running minimum/maximum over the same iterator) is verified with two loop invariants (every consumed element is NaN; min <= every non-NaN element seen <= max, both attained) - init, preservation and exhaustion obligations - and, with C01's monotonicity of conversions, 'accepted iff every non-NaN amount satisfies the limits' is proved for every length, order and container kind.",
+    "level_text": "Quantity.CheckValue is verified against the functional contract 'accepts exactly when the amount re-expressed in the category's default unit satisfies the limits': for a symbolic category (limits present/absent, inclusive/exclusive, symbolic reals), a symbolic unit of its type and an extended float (NaN, +inf, -inf flags) it returns iff both limits hold for y = conv(unit -> default unit)(value), otherwise raises QuantityValidationError carrying y, the violated limit (min before max) and the operator matching exclusivity, in symbols or words; NaN satisfies no limit; derived quantities are accepted. AddCategory is proved never to register a default unit outside the category's quantity type or a default value outside its own limits (W3 of the new entry, for all combinations of given / inherited / absent limits, default value and default unit), and the shipped tables satisfy the same row by row. Scalar.CheckValidity / IsValid and FractionScalar.CheckValidity are proved to be exactly CheckValue of the stored amount (derived quantities always valid). Array.CheckValidity / IsValid on flat lists, tuples and ndarrays of unbounded length whose elements are finite numbers or NaN: the real scan (skip leading NaNs, then running minimum/maximum over the same iterator) is verified with two loop invariants (every consumed element is NaN; min <= every non-NaN element seen <= max, both attained) - init, preservation and exhaustion obligations - and, with C01's monotonicity of conversions, 'accepted iff every non-NaN amount satisfies the limits' is proved for every length, order and container kind. The verdict memo of Arrays (_is_valid / _validity_exception) is covered by the representation invariant MV - a memoised verdict is the verdict of the object's own values under its own category: assumed and preserved by ValidateValues from every memo state, and established by Array.CreateCopy in all its forms (plain, unit, unit and category, new values).",
     "level_note": "unit-independence is by construction of the contract (the verdict is a function of conv(unit -> default unit)(value) only) together with C01's monotonicity lemma (assumed as a precondition where the scan needs it); floats are reals with NaN/inf flags; Array elements finite or NaN (no infinities); the tuple-of-tuples branch of the scan and the ValidateValues memo across calls are replayed natively (probe validity) but not under contract; which limit a rejected Array reports is not specified",
     "trusted": STD_TRUSTED,
 }
@@ -150,7 +150,7 @@ PROPS["C12"] = {
 PROPS["C19"] = {
     "tasks": lambda tier: table_tasks("table_c19", fillers=("posc",)) + [V(AVQ + ".__init__#forms"), V(SC + ".__repr__"), V(UDB + ":UnitDatabase.GetDefaultCategory")] + VP(QM + ":ObtainQuantity", 16),
     "level": "proof",
-    "level_text": "AbstractValueWithQuantityObject.__init__, Scalar/Array/FixedArray.__init__, CreateWithQuantity and the _InternalCreateWithQuantity methods are executed from their real AST on symbolic value, unit and category (ObtainQuantity and GetDefaultCategory by their verified contracts): for a unit whose default category is c, the forms (v,u), (v,u,c), (c,v,u), ((v,u)) (Scalar), (ObtainQuantity(u,c), v) and CreateWithQuantity are proved to build objects with equal quantity and equal value (or all to raise the same error), for Scalar, Array (values of unbounded length) and FixedArray; the object built from a category alone is proved equal to the one built from the category's default value and default unit. The precondition 'every unit's default category is registered and has the unit's quantity type' is established exhaustively for the 1548 table units by executing the real GetDefaultCategory on the table registry, together with 'no symbol or category contains a quote or backslash'; Scalar.__repr__ for a simple quantity is proved to be exactly the text of the (value, unit, category) constructor call. ObtainQuantity's exact intern-table postcondition rules out one request disturbing what a later, different request resolves to.",
+    "level_text": "AbstractValueWithQuantityObject.__init__, Scalar/Array/FixedArray.__init__, CreateWithQuantity and the _InternalCreateWithQuantity methods are executed from their real AST on symbolic value, unit and category (ObtainQuantity and GetDefaultCategory by their verified contracts): for a unit whose default category is c, the forms (v,u), (v,u,c), (c,v,u), ((v,u)) (Scalar), (ObtainQuantity(u,c), v) and CreateWithQuantity are proved to build objects with equal quantity and equal value (or all to raise the same error), for Scalar, Array (values of unbounded length) and FixedArray; the object built from a category alone is proved equal to the one built from the category's default value and default unit. The precondition 'every unit's default category is registered and has the unit's quantity type' is established exhaustively for the 1548 table units by executing the real GetDefaultCategory on the table registry, together with 'no symbol or category contains a quote or backslash'; Scalar.__repr__ for a simple quantity is proved to be exactly the text of the (value, unit, category) constructor call. ObtainQuantity's exact intern-table postcondition rules out one request disturbing what a later, different request resolves to. An object built from a category alone owns its values container (not class- or module-level state shared with other objects).",
     "level_note": "FractionScalar forms not yet under contract; eval(repr(float)) == float assumed (A12); quantity equality through Quantity.__eq__ (C07)",
     "trusted": STD_TRUSTED + ["eval(repr(x)) == x for finite floats (A12)"],
 }
@@ -166,7 +166,7 @@ PROPS["C11"] = {
 PROPS["C13"] = {
     "tasks": lambda tier: [V(SC + ".GetAbstractValue"), V(AVQ + ".CreateCopy"), V(SC + ".__lt__#ordering"), V(AVQ + ".GetValidUnits"), V(QM + ":Quantity#value-semantics"), V(QM + ":Quantity.CheckValue"), V(QM + ":Quantity.ConvertScalarValue"), V(UDB + ":UnitDatabase.Convert"), V(UDB + ":UnitDatabase._ConvertMatchedValue")] + VP(FA + "#operations", 15) + VP(OPS_KEY, 10) + VP(AOPS_KEY, 12) + VP("barril.units._fraction_scalar:FractionScalar#like-a-scalar", 7),
     "level": "proof",
-    "level_text": "Frame (modifies) obligations on every value-object operation under contract, with operand containers of symbolic unbounded length in region 'parameter': Scalar GetValue / CreateCopy / comparison / all ten arithmetic operators (incl. reflected and number operands), Array arithmetic for list-, tuple- and numpy-backed values (every write inside _DoOperation, _ValueGenerator and the database operations is checked to hit only objects allocated during the call), FixedArray CreateCopy / ChangingIndex / IndexAsScalar / __reduce__ / arithmetic, Quantity copy/eq/hash/reduce, UnitDatabase.Convert (results are new containers), CheckValue. Each proves: the receiver's and the other operand's fields are the same objects/values afterwards, the container contents are unchanged (array equality of the element maps), operand quantities are unchanged, results are new objects with new containers. CreateCopy() == self and reduce-rebuild == self are proved for Scalar-like simple/derived/empty quantities and FixedArray.",
+    "level_text": "Frame (modifies) obligations on every value-object operation under contract, with operand containers of symbolic unbounded length in region 'parameter': Scalar GetValue / CreateCopy / comparison / all ten arithmetic operators (incl. reflected and number operands), Array arithmetic for list-, tuple- and numpy-backed values (every write inside _DoOperation, _ValueGenerator and the database operations is checked to hit only objects allocated during the call), FixedArray CreateCopy / ChangingIndex / IndexAsScalar / __reduce__ / arithmetic, Quantity copy/eq/hash/reduce, UnitDatabase.Convert (results are new containers), CheckValue. Each proves: the receiver's and the other operand's fields are the same objects/values afterwards, the container contents are unchanged (array equality of the element maps), operand quantities are unchanged, results are new objects with new containers. CreateCopy() == self and reduce-rebuild == self are proved for Scalar-like simple/derived/empty quantities and FixedArray. In-place updates (x *= k on an ndarray, l += ...) are modelled as writes to the caller's object. FractionScalar GetValue / comparison / CheckValidity leave the receiver's FractionValue and Fraction untouched. Pickle round trips of quantities rest on the composing-map clauses of ObtainQuantity (callee clauses of this property).",
     "level_note": "FractionScalar conversion / comparison / validation frames included (its formatting and the str/repr of Arrays are not under contract); numpy aliasing is modelled by container identity tokens; arithmetic shape-bounded as C03; floats are reals",
     "trusted": STD_TRUSTED + ["numpy elementwise arithmetic returns new arrays (A5)"],
 }
